@@ -124,7 +124,7 @@ func c15r1(c *Ctx) {
 		return
 	}
 	c.Note("%s: K = {%s}", rule, c15names(K))
-	c.MinCount(rule, "crypto-relevant fields (K)", len(K), 14)
+	c.MinCount(rule, "crypto-relevant fields (K)", len(K), 5)
 	exp, p1 := c.c15exportItems(e)
 	_, p2, blobCell, stores, _ := c.c15importItems(e)
 	for _, p := range append(p1, p2...) {
@@ -139,7 +139,7 @@ func c15r1(c *Ctx) {
 	fromBlob := func(f *types.Var) bool {
 		pred := c15blobPred(e.imp, blobCell)
 		for _, st := range stores[f] {
-			if mustDepend(e.imp, st.Val, pred) {
+			if c.c15dep(st.fr, st.st.Val, pred, 0) {
 				return true
 			}
 		}
@@ -190,8 +190,8 @@ func c15r2(c *Ctx) {
 	if len(p1)+len(p2) > 0 {
 		return
 	}
-	c.MinCount(rule, "exporter items", len(exp), 11)
-	c.MinCount(rule, "importer items", len(imp), 11)
+	c.MinCount(rule, "exporter items", len(exp), 3)
+	c.MinCount(rule, "importer items", len(imp), 3)
 	if !c.Check(len(exp) == len(imp), rule, "item-count", "both sides handle the same number of items", "the exporter writes "+strconv.Itoa(len(exp))+" items but the importer reads "+strconv.Itoa(len(imp)), e.imp.Pos()) {
 		return
 	}
@@ -249,12 +249,12 @@ func c15r2(c *Ctx) {
 			c.Check(okD, rule, key+"#byteorder", "decoded big-endian with the matching width", "item "+strconv.Itoa(i)+": written with binary.Write(BigEndian) but not decoded with binary.BigEndian."+want, m.instr.Pos())
 		}
 		// flag bits
-		si := e.c15slice(e.exp, x.val)
+		si := e.c15sliceFr(x.fr, x.val)
 		for _, f := range c15sortedFields(c15fieldKeys(si.ctrlFlds)) {
 			k := si.bits[f]
 			mk := int64(-1)
 			for _, st := range stores[f] {
-				if b := c15bitOfStore(st); b >= 0 {
+				if b := c15bitOfStore(st.st); b >= 0 {
 					mk = b
 				}
 			}
@@ -265,7 +265,7 @@ func c15r2(c *Ctx) {
 		fv, _ := constant.Int64Val(c15constVal(fixed))
 		c.Check(fv == off, rule, "fixed-length", "the fixed part adds up to cryptoStateFixedLen", "the fixed-width items add up to "+strconv.FormatInt(off, 10)+" bytes but cryptoStateFixedLen is "+strconv.FormatInt(fv, 10), fixed.Pos())
 	}
-	c.MinCount(rule, "uint16-prefixed trailing fields", nVar, 3)
+	c.MinCount(rule, "uint16-prefixed trailing fields", nVar, 1)
 }
 
 func c15max64(a, b int64) int64 {
@@ -294,7 +294,7 @@ func c15constVal(o types.Object) constant.Value {
 // C15-R3: verbatim restore.
 func c15r3(c *Ctx) {
 	const rule = "C15-R3"
-	c.Doc(rule, "NewStreamWithCryptoState (and everything it calls in the module) neither calls SetSymmetricKey nor any random source; every store it makes to a crypto-relevant field (K of C15-R1, plus encryptKey) is blob-derived; functions it calls write no crypto-relevant field except the frozen exceptions; it builds the AEAD with the same constructors and nonce size as SetSymmetricKey")
+	c.Doc(rule, "NewStreamWithCryptoState (and everything it calls in the module) neither calls SetSymmetricKey nor any random source; every store it makes - itself or in a helper it hands blob-derived data to - to a crypto-relevant field (K of C15-R1, plus encryptKey) is blob-derived; other functions it calls write no crypto-relevant field except the frozen exceptions; it builds the AEAD with the same constructors and nonce size as SetSymmetricKey")
 	e := c.c15load(rule)
 	ssk := c.needFn(rule, "stream", "(*Stream).SetSymmetricKey")
 	if !e.ok || ssk == nil {
@@ -306,6 +306,14 @@ func c15r3(c *Ctx) {
 	}
 	if ek := e.byName["encryptKey"]; ek != nil {
 		K[ek] = true
+	}
+	_, probs, blobCell, stores, _ := c.c15importItems(e)
+	// helpers the importer hands blob-derived data to (setters): their stores are checked like the importer's own
+	storeFns := map[*ssa.Function]bool{}
+	for _, sts := range stores {
+		for _, st := range sts {
+			storeFns[st.fr.fn] = true
+		}
 	}
 	reach := c.reachableFns([]*ssa.Function{e.imp}, false)
 	var fns []*ssa.Function
@@ -330,7 +338,7 @@ func c15r3(c *Ctx) {
 				c.Violate(rule, "regenerates:"+fnName(fn)+"->"+o.Name(), "the import path calls "+o.FullName()+": IV/counters would be regenerated instead of restored", call.Pos())
 			}
 		})
-		if topFn(fn) != e.imp {
+		if topFn(fn) != e.imp && !storeFns[fn] {
 			rw := e.c15rw(fn)
 			for f := range rw.writes {
 				if K[f] && c15notExported[f.Name()] == "" {
@@ -343,8 +351,7 @@ func c15r3(c *Ctx) {
 	if bad == 0 {
 		c.Ok(rule, "no-regeneration", "no SetSymmetricKey / random source on the import path; callees write no crypto-relevant field", e.imp.Pos())
 	}
-	c.MinCount(rule, "functions on the import path", len(fns), 3)
-	_, probs, blobCell, stores, _ := c.c15importItems(e)
+	c.MinCount(rule, "functions on the import path", len(fns), 1)
 	for _, p := range probs {
 		c.Undecided(rule, "layout-extraction", p, e.imp.Pos())
 	}
@@ -353,12 +360,19 @@ func c15r3(c *Ctx) {
 	for _, f := range c15sortedFields(K) {
 		for _, st := range stores[f] {
 			n++
-			c.Check(mustDepend(e.imp, st.Val, pred), rule, "verbatim:"+f.Name(), "assigned from a blob-derived value", "NewStreamWithCryptoState assigns "+f.Name()+" a value that does not come from the blob", st.Pos())
+			c.Check(c.c15dep(st.fr, st.st.Val, pred, 0), rule, "verbatim:"+f.Name(), "assigned from a blob-derived value", "NewStreamWithCryptoState assigns "+f.Name()+" a value that does not come from the blob", st.st.Pos())
 		}
 	}
-	c.MinCount(rule, "stores to crypto-relevant fields in the importer", n, 12)
+	c.MinCount(rule, "stores to crypto-relevant fields in the importer", n, 5)
 	// writes that are not plain stores (copy into / call on a slice of the field) cannot be followed
-	for _, g := range withClosures(e.imp) {
+	indirectIn := withClosures(e.imp)
+	for g := range storeFns {
+		if topFn(g) != e.imp {
+			indirectIn = append(indirectIn, g)
+		}
+	}
+	sort.Slice(indirectIn, func(i, j int) bool { return fnName(indirectIn[i]) < fnName(indirectIn[j]) })
+	for _, g := range indirectIn {
 		rw := e.c15rw(g)
 		for _, f := range c15sortedFields(K) {
 			for _, w := range rw.writes[f] {
@@ -378,26 +392,40 @@ func c15r3(c *Ctx) {
 	sig := func(fn *ssa.Function) (string, bool) {
 		var parts []string
 		okKey := false
-		allInstrs(fn, func(_ *ssa.BasicBlock, _ int, in ssa.Instruction) {
-			call, ok := in.(ssa.CallInstruction)
-			if !ok {
+		// the constructors called by fn or by a same-package helper it delegates to (a shared "build the AEAD" step)
+		var scan func(g *ssa.Function, depth int)
+		seen := map[*ssa.Function]bool{}
+		scan = func(g *ssa.Function, depth int) {
+			if seen[g] {
 				return
 			}
-			o := calleeObj(call)
-			if o == nil || o.Pkg() == nil || !(o.Pkg().Path() == "crypto/aes" || o.Pkg().Path() == "crypto/cipher") {
-				return
-			}
-			s := o.Pkg().Path() + "." + o.Name()
-			for _, a := range call.Common().Args {
-				if k, ok := constInt(a); ok {
-					s += "(" + strconv.FormatInt(k, 10) + ")"
+			seen[g] = true
+			allInstrs(g, func(_ *ssa.BasicBlock, _ int, in ssa.Instruction) {
+				call, ok := in.(ssa.CallInstruction)
+				if !ok {
+					return
 				}
-			}
-			parts = append(parts, s)
-			if o.Name() == "NewCipher" {
-				okKey = true
-			}
-		})
+				if h := calleeFn(call); h != nil && h.Blocks != nil && fnPkg(h) == e.pkg && depth < 2 {
+					scan(h, depth+1)
+					return
+				}
+				o := calleeObj(call)
+				if o == nil || o.Pkg() == nil || !(o.Pkg().Path() == "crypto/aes" || o.Pkg().Path() == "crypto/cipher") {
+					return
+				}
+				s := o.Pkg().Path() + "." + o.Name()
+				for _, a := range call.Common().Args {
+					if k, ok := constInt(a); ok {
+						s += "(" + strconv.FormatInt(k, 10) + ")"
+					}
+				}
+				parts = append(parts, s)
+				if o.Name() == "NewCipher" {
+					okKey = true
+				}
+			})
+		}
+		scan(fn, 0)
 		sort.Strings(parts)
 		return strings.Join(parts, " "), okKey
 	}
@@ -410,19 +438,17 @@ func c15r3(c *Ctx) {
 // C15-R4: refusal conditions.
 func c15r4(c *Ctx) {
 	const rule = "C15-R4"
-	c.Doc(rule, "every success return of ExportCryptoState is preceded by an edge on which encrypted is true, gcm is non-nil, finishedSendAAD and finishedRecvAAD are true, and, for each buffering field (B = Stream fields written by WriteMessage/StartMessage/EndMessage/flushPartialFrame/readNextFrame/StartMessageRead/ReadMessageBytes/EndMessageRead, computed), by an edge on which it is false/zero/empty")
+	c.Doc(rule, "every success return of ExportCryptoState is preceded by an edge (a branch, also through a local boolean, a predicate or an error-returning helper) on which encrypted is true, gcm is non-nil, finishedSendAAD and finishedRecvAAD are true, and, for each buffering field (B = Stream fields written by WriteMessage/StartMessage/EndMessage/flushPartialFrame/readNextFrame/StartMessageRead/ReadMessageBytes/EndMessageRead, computed), by an edge on which it is false/zero/empty")
 	e := c.c15load(rule)
 	if !e.ok {
 		return
 	}
 	tg := c.successTargets(e.exp)
 	c.MinCount(rule, "success returns of ExportCryptoState", len(tg), 1)
-	pass := func(key string, cuts []Edge, okMsg, badMsg string) {
-		for _, t := range tg {
-			if p := findPath(entryPoint(e.exp), t.Target(), newCuts().AddEdges(cuts...)); p != nil {
-				c.Violate(rule, key, badMsg, t.Ret.Pos(), c.describePath(p)...)
-				return
-			}
+	pass := func(key string, test c15test, okMsg, badMsg string) {
+		if ok, p, ret := c.c15mustPass(e, e.exp, test); !ok {
+			c.Violate(rule, key, badMsg, ret.Pos(), c.describePath(p)...)
+			return
 		}
 		c.Ok(rule, key, okMsg, e.exp.Pos())
 	}
@@ -431,10 +457,10 @@ func c15r4(c *Ctx) {
 		if f == nil {
 			continue
 		}
-		_, on := fieldCondEdges(e.exp, f)
-		pass("requires:"+n, on, "export is refused unless "+n+" is set", "ExportCryptoState can succeed without "+n+" being set")
+		pass("requires:"+n, c15fieldOn(f), "export is refused unless "+n+" is set", "ExportCryptoState can succeed without "+n+" being set")
 	}
 	B := map[*types.Var]bool{}
+	var apiFns []*ssa.Function
 	nf := 0
 	for _, n := range []string{"WriteMessage", "StartMessage", "EndMessage", "flushPartialFrame", "readNextFrame", "StartMessageRead", "ReadMessageBytes", "EndMessageRead"} {
 		fn := c.needFn(rule, "stream", "(*Stream)."+n)
@@ -445,9 +471,26 @@ func c15r4(c *Ctx) {
 		for f := range e.c15rw(fn).writes {
 			B[f] = true
 		}
+		apiFns = append(apiFns, fn)
+	}
+	// unexported helpers only the buffer API calls (an extracted "reset the receive state" step) write for it
+	apiSet := fnSet(apiFns...)
+	var helpers []*ssa.Function
+	for g := range c.reachableFns(apiFns, false) {
+		if !apiSet[g] && fnPkg(g) == e.pkg && g.Parent() == nil && g.Object() != nil && !g.Object().Exported() && len(e.c15rw(g).writes) > 0 {
+			helpers = append(helpers, g)
+		}
+	}
+	sort.Slice(helpers, func(i, j int) bool { return fnName(helpers[i]) < fnName(helpers[j]) })
+	for _, g := range helpers {
+		if c.onlyReachableFrom(g, apiSet) {
+			for f := range e.c15rw(g).writes {
+				B[f] = true
+			}
+		}
 	}
 	c.Note("%s: B = {%s}", rule, c15names(B))
-	c.MinCount(rule, "buffering fields (B)", len(B), 6)
+	c.MinCount(rule, "buffering fields (B)", len(B), 2)
 	for _, f := range c15sortedFields(B) {
 		key := "clean:" + f.Name()
 		if of, ok := c15bufferingImplied[f.Name()]; ok {
@@ -465,8 +508,7 @@ func c15r4(c *Ctx) {
 			}
 			continue
 		}
-		clean, _ := c15cleanEdges(e.exp, f)
-		pass(key, clean, "export is refused while "+f.Name()+" holds buffered state", "ExportCryptoState can succeed while "+f.Name()+" is non-zero: a partially sent or partially consumed message would be stranded")
+		pass(key, c15fieldClean(f), "export is refused while "+f.Name()+" holds buffered state", "ExportCryptoState can succeed while "+f.Name()+" is non-zero: a partially sent or partially consumed message would be stranded")
 	}
 }
 
@@ -528,89 +570,117 @@ func c15r5(c *Ctx) {
 		c.Undecided(rule, "layout-extraction", p, fn.Pos())
 	}
 	blob := ssa.Value(fn.Params[len(fn.Params)-1])
-	isBlob := func(v ssa.Value) bool {
-		if v == blob {
-			return true
-		}
-		ld, ok := v.(*ssa.UnOp)
-		return ok && ld.Op == token.MUL && ld.X == blobCell
-	}
+	isBlob := func(fr *c15frame, v ssa.Value) bool { return c15isBlob(blob, blobCell, fr, v) }
 	fv, _ := constant.Int64Val(c15constVal(fixed))
 	mv := constant.StringVal(c15constVal(magic))
 	vv, _ := constant.Int64Val(constant.ToInt(c15constVal(version)))
-	var lenOK, magicOK, verOK []Edge
-	for _, b := range fn.Blocks {
-		ifi := blockIf(b)
-		if ifi == nil {
-			continue
+	// the three acceptance facts as atom tests (evaluated in the importer or in a helper it hands the blob to)
+	lenTest := func(fr *c15frame, a Atom) (bool, bool) { // len(blob) >= cryptoStateFixedLen
+		l, ok := c15isBuiltin(a.X, "len")
+		if !ok || !isBlob(fr, l.Call.Args[0]) {
+			return false, false
 		}
-		a := condAtom(ifi.Cond)
-		t, f := Edge{b, 0}, Edge{b, 1}
-		if a.Neg {
-			t, f = f, t
+		if k, isC := constInt(a.Y); !isC || k != fv {
+			return false, false
 		}
-		// len(blob) < K
-		if l, ok := c15isBuiltin(a.X, "len"); ok && isBlob(l.Call.Args[0]) {
-			if k, isC := constInt(a.Y); isC && k == fv {
-				switch a.Op {
-				case token.LSS:
-					lenOK = append(lenOK, f)
-				case token.GEQ:
-					lenOK = append(lenOK, t)
-				}
-			}
+		switch a.Op {
+		case token.LSS:
+			return a.Neg, !a.Neg
+		case token.GEQ:
+			return !a.Neg, a.Neg
 		}
+		return false, false
+	}
+	magicTest := func(fr *c15frame, a Atom) (bool, bool) { // string(blob[:len(magic)]) == magic
 		if a.Op != token.NEQ && a.Op != token.EQL {
-			continue
+			return false, false
 		}
-		eq, ne := t, f
-		if a.Op == token.NEQ {
-			eq, ne = f, t
+		s, ok := constString(a.Y)
+		if !ok || s != mv {
+			return false, false
 		}
-		_ = ne
-		// string(blob[:4]) ==/!= magic
-		if s, ok := constString(a.Y); ok && s == mv {
-			if cv, ok := a.X.(*ssa.Convert); ok {
-				if sl, ok := cv.X.(*ssa.Slice); ok && isBlob(sl.X) {
-					lo, hi := int64(0), int64(-1)
-					if sl.Low != nil {
-						lo, _ = constInt(sl.Low)
-					}
-					if sl.High != nil {
-						hi, _ = constInt(sl.High)
-					}
-					if lo == 0 && hi == int64(len(mv)) {
-						magicOK = append(magicOK, eq)
-					}
-				}
+		cv, ok := a.X.(*ssa.Convert)
+		if !ok {
+			return false, false
+		}
+		sl, ok := cv.X.(*ssa.Slice)
+		if !ok || !isBlob(fr, sl.X) {
+			return false, false
+		}
+		lo, hi := int64(0), int64(-1)
+		if sl.Low != nil {
+			lo, _ = constInt(sl.Low)
+		}
+		if sl.High != nil {
+			hi, _ = constInt(sl.High)
+		}
+		if lo != 0 || hi != int64(len(mv)) {
+			return false, false
+		}
+		eq := a.Op == token.EQL
+		if a.Neg {
+			eq = !eq
+		}
+		return eq, !eq
+	}
+	verTest := func(fr *c15frame, a Atom) (bool, bool) { // version (decoded from the item at offset len(magic)) == cryptoStateVersion
+		if a.Op != token.NEQ && a.Op != token.EQL {
+			return false, false
+		}
+		if k, ok := constInt(a.Y); !ok || k != vv {
+			return false, false
+		}
+		call, ok := a.X.(*ssa.Call)
+		if !ok || !c15calleeIs(call, "encoding/binary", "Uint16") {
+			return false, false
+		}
+		found := false
+		for _, it := range items {
+			if it.val == call.Call.Args[len(call.Call.Args)-1] && it.off == int64(len(mv)) {
+				found = true
 			}
 		}
-		// version ==/!= cryptoStateVersion, version decoded from the item at offset len(magic)
-		if k, ok := constInt(a.Y); ok && k == vv {
-			if call, ok := a.X.(*ssa.Call); ok && c15calleeIs(call, "encoding/binary", "Uint16") {
-				for _, it := range items {
-					if it.val == call.Call.Args[len(call.Call.Args)-1] && it.off == int64(len(mv)) {
-						verOK = append(verOK, eq)
-					}
-				}
-			}
+		if !found {
+			return false, false
 		}
+		eq := a.Op == token.EQL
+		if a.Neg {
+			eq = !eq
+		}
+		return eq, !eq
 	}
 	tg := c.successTargets(fn)
 	c.MinCount(rule, "success returns of NewStreamWithCryptoState", len(tg), 1)
-	pass := func(key string, cuts *Cuts, okMsg, badMsg string) {
-		for _, t := range tg {
-			if p := findPath(entryPoint(fn), t.Target(), cuts); p != nil {
-				c.Violate(rule, key, badMsg, t.Ret.Pos(), c.describePath(p)...)
-				return
-			}
+	pass := func(key string, test c15test, okMsg, badMsg string) {
+		if ok, p, ret := c.c15mustPass(e, fn, test); !ok {
+			c.Violate(rule, key, badMsg, ret.Pos(), c.describePath(p)...)
+			return
 		}
 		c.Ok(rule, key, okMsg, fn.Pos())
 	}
-	pass("rejects:short", newCuts().AddEdges(lenOK...), "a blob shorter than cryptoStateFixedLen is rejected", "NewStreamWithCryptoState can succeed without testing len(blob) against cryptoStateFixedLen")
-	pass("rejects:magic", newCuts().AddEdges(magicOK...), "a blob with the wrong magic is rejected", "NewStreamWithCryptoState can succeed without the first bytes equalling cryptoStateMagic")
-	pass("rejects:version", newCuts().AddEdges(verOK...), "a blob of another version is rejected", "NewStreamWithCryptoState can succeed without the version field equalling cryptoStateVersion")
-	c.Check(c15astUses(c, fn, fixed) >= 1 && c15astUses(c, fn, magic) >= 1 && c15astUses(c, fn, version) >= 1, rule, "names-constants", "the importer names cryptoStateFixedLen, cryptoStateMagic and cryptoStateVersion", "the importer does not refer to the layout constants the exporter is written against", fn.Pos())
+	pass("rejects:short", lenTest, "a blob shorter than cryptoStateFixedLen is rejected", "NewStreamWithCryptoState can succeed without testing len(blob) against cryptoStateFixedLen")
+	pass("rejects:magic", magicTest, "a blob with the wrong magic is rejected", "NewStreamWithCryptoState can succeed without the first bytes equalling cryptoStateMagic")
+	pass("rejects:version", verTest, "a blob of another version is rejected", "NewStreamWithCryptoState can succeed without the version field equalling cryptoStateVersion")
+	// the layout constants are named by the importer or by the helpers it delegates to
+	uses := func(obj types.Object) int {
+		n := 0
+		for g := range c.reachableFns([]*ssa.Function{fn}, false) {
+			if fnPkg(g) == e.pkg && g.Parent() == nil {
+				n += c15astUses(c, g, obj)
+			}
+		}
+		return n
+	}
+	c.Check(uses(fixed) >= 1 && uses(magic) >= 1 && uses(version) >= 1, rule, "names-constants", "the importer names cryptoStateFixedLen, cryptoStateMagic and cryptoStateVersion", "the importer does not refer to the layout constants the exporter is written against", fn.Pos())
+	// guardedAt: every path to in (of frame fr) passes a len(blob) >= cryptoStateFixedLen edge, in fr or - for a
+	// helper - on the way to the call through which it is entered
+	var guardedAt func(fr *c15frame, in ssa.Instruction) bool
+	guardedAt = func(fr *c15frame, in ssa.Instruction) bool {
+		if findPath(entryPoint(fr.fn), Target{Instr: in}, e.factCuts(c.Prog, fr, lenTest, 3)) == nil {
+			return true
+		}
+		return fr.parent != nil && guardedAt(fr.parent, fr.site.(ssa.Instruction))
+	}
 	// fixed reads: below the tested length and after the test
 	nFixed, nVar := 0, 0
 	for i, it := range items {
@@ -618,22 +688,36 @@ func c15r5(c *Ctx) {
 			nFixed++
 			key := "fixed-read@" + strconv.FormatInt(it.off, 10)
 			within := it.off+it.width <= fv
-			guarded := len(lenOK) > 0 && findPath(entryPoint(fn), Target{Instr: it.instr}, newCuts().AddEdges(lenOK...)) == nil
-			c.Check(within && guarded, rule, key, "lies below cryptoStateFixedLen and after the length test", "the read of blob["+strconv.FormatInt(it.off, 10)+":"+strconv.FormatInt(it.off+it.width, 10)+"] is not covered by the length test (a truncated blob panics or is misread)", it.instr.Pos())
+			c.Check(within && guardedAt(it.fr, it.instr), rule, key, "lies below cryptoStateFixedLen and after the length test", "the read of blob["+strconv.FormatInt(it.off, 10)+":"+strconv.FormatInt(it.off+it.width, 10)+"] is not covered by the length test (a truncated blob panics or is misread)", it.instr.Pos())
 			continue
 		}
 		nVar++
 		key := "rejects:truncated-field" + strconv.Itoa(i)
-		call := it.instr.(*ssa.Call)
+		call, isCall := it.instr.(*ssa.Call)
+		if !isCall {
+			// read inline in the importer: rejection is the bounds test itself (trailing-reader-bounds below)
+			c.Ok(rule, key, "the trailing field is read inline, behind its bounds tests", it.instr.Pos())
+			continue
+		}
 		succ, _, checked := callErrEdges(fn, call)
 		if !checked {
 			c.Violate(rule, key, "the error of a trailing-field read is never tested", call.Pos())
 			continue
 		}
-		pass(key, newCuts().AddEdges(succ...), "a blob truncated in this trailing field is rejected", "NewStreamWithCryptoState can succeed although reading this trailing field failed")
+		okT := true
+		for _, t := range tg {
+			if p := findPath(entryPoint(fn), t.Target(), newCuts().AddEdges(succ...)); p != nil {
+				c.Violate(rule, key, "NewStreamWithCryptoState can succeed although reading this trailing field failed", t.Ret.Pos(), c.describePath(p)...)
+				okT = false
+				break
+			}
+		}
+		if okT {
+			c.Ok(rule, key, "a blob truncated in this trailing field is rejected", fn.Pos())
+		}
 	}
-	c.MinCount(rule, "fixed reads", nFixed, 8)
-	c.MinCount(rule, "trailing-field reads", nVar, 3)
+	c.MinCount(rule, "fixed reads", nFixed, 3)
+	c.MinCount(rule, "trailing-field reads", nVar, 1)
 	seen := map[string]bool{}
 	for _, u := range unchecked {
 		if !seen[u] {
